@@ -96,17 +96,19 @@ def generate(rng, tier, index):
             "sched_seed": rng.randrange(2**31), "modes": modes}
 
 
-def _sched_for(plan, rng, script=None):
+def _sched_for(plan, rng, script=None, budget=5000):
+    """budget: scheduler steps allowed = a multiple of what the same loads needed one after the
+    other (bounded liveness: concurrency must not multiply the work)"""
     if script is not None:
-        return Sched(script=script, max_steps=5000), "script"
+        return Sched(script=script, max_steps=budget), "script"
     mode = rng.choice(plan.get("modes", ["random"]))
     if mode == "random":
-        return Sched(rng=rng, switch_p=rng.choice([1.0, 1.0, 0.5, 0.2]), max_steps=5000), mode
+        return Sched(rng=rng, switch_p=rng.choice([1.0, 1.0, 0.5, 0.2]), max_steps=budget), mode
     if mode == "pct":
         return Sched(rng=rng, mode="pct", pct_depth=rng.choice([1, 2, 3]), est_steps=40,
-                     max_steps=5000), mode
+                     max_steps=budget), mode
     pts = {rng.randrange(1, 260) for _ in range(3)}
-    return Sched(rng=rng, switch_p=0.3, max_steps=5000, line_points=pts,
+    return Sched(rng=rng, switch_p=0.3, max_steps=budget, line_points=pts,
                  trace_prefix=boot.REPO + "/ceos_alos2/"), mode
 
 
@@ -133,6 +135,7 @@ def execute(plan):
                 continue
             # sequential reference, selection by selection
             jobs = []
+            solo_events = 0
             for a in aset["actors"]:
                 items = a.get("items") or [[a["image"], a["copy"], sel] for sel in a["selections"]]
                 good = []
@@ -141,9 +144,11 @@ def execute(plan):
                     da = copies[copy_k]["imagery"][prod.groups[name]]["data"]
                     # the single-threaded load also runs as a (lone) actor, so that a lock the
                     # load path takes twice shows up as a deadlock instead of hanging the harness
-                    solo = Sched(script=[], max_steps=5000)
+                    solo = Sched(script=[], max_steps=200000)
                     solo.spawn("S", lambda da=da, sel=sel: select.apply(da, sel).load().values)
+                    m_solo = SIM.mark()
                     solo.run(wall_timeout=120)
+                    solo_events += SIM.mark() - m_solo
                     if solo.deadlock or solo.budget:
                         violations.append(Violation(ID, "deadlock", "single-load", {
                             "selection": sel, "scenario": aset["scenario"],
@@ -161,7 +166,8 @@ def execute(plan):
                 if only is not None and only[1] != j:
                     continue
                 rng = random.Random(plan["sched_seed"] * 1000003 + si * 1009 + j)
-                sched, mode = _sched_for(plan, rng, plan.get("schedule"))
+                sched, mode = _sched_for(plan, rng, plan.get("schedule"),
+                                         budget=2000 + 10 * solo_events)
                 for ai, good in enumerate(jobs):
                     def work(good=good):
                         return [select.apply(da, sel).load().values for da, sel, _ in good]
